@@ -23,7 +23,14 @@ def _inputs(k):
     return {"A": A, "B": torch.randn(4, 2, generator=g, dtype=DT), "c": torch.randn(3, generator=g, dtype=DT) * 0.5,
             "W": torch.randn(3, 3, generator=g, dtype=DT) * 0.2, "y0": torch.zeros(3, dtype=DT), "ts": torch.linspace(0.0, 0.5 + 0.1 * k, 4, dtype=DT),
             "a": torch.tensor(0.6 + 0.1 * k, dtype=DT), "xs": torch.linspace(0.0, 1.0, 6, dtype=DT) ** (1.0 + 0.2 * k), "ys": torch.randn(6, generator=g, dtype=DT),
-            "xq": torch.rand(4, generator=g, dtype=DT)}
+            "xq": torch.rand(4, generator=g, dtype=DT), "M": _spd(1900 + k)}
+
+
+def _spd(seed):
+    # (a generator of its own: the other inputs stay what they were before the metric was added)
+    g = torch.Generator().manual_seed(seed)
+    Q, _ = torch.linalg.qr(torch.randn(4, 4, generator=g, dtype=DT))
+    return (Q * torch.linspace(0.8, 1.6, 4, dtype=DT)) @ Q.T
 
 
 def _tuple(x):
